@@ -311,8 +311,6 @@ impl TransactionBuilder {
   }
 
   fn add_value(mut self) -> Result<Self> {
-    let estimated_fee = self.estimate_fee();
-
     let min_value = match self.target {
       Target::Postage => self
         .outputs
@@ -323,35 +321,38 @@ impl TransactionBuilder {
       Target::Value(value) | Target::ExactPostage(value) => value,
     };
 
-    let total = min_value
-      .checked_add(estimated_fee)
-      .ok_or(Error::ValueOverflow)?;
+    loop {
+      // the fee is re-estimated after every added input: an input adds 57.5
+      // vbytes, so `ADDITIONAL_INPUT_VBYTES` alone underestimates it
+      let total = min_value
+        .checked_add(self.estimate_fee())
+        .ok_or(Error::ValueOverflow)?;
 
-    if let Some(mut deficit) = total.checked_sub(self.outputs.last().unwrap().value) {
-      while deficit > Amount::ZERO {
-        let additional_fee = self.fee_rate.fee(Self::ADDITIONAL_INPUT_VBYTES);
+      let deficit = match total.checked_sub(self.outputs.last().unwrap().value) {
+        Some(deficit) if deficit > Amount::ZERO => deficit,
+        _ => break,
+      };
 
-        let needed = deficit
-          .checked_add(additional_fee)
-          .ok_or(Error::ValueOverflow)?;
+      let additional_fee = self.fee_rate.fee(Self::ADDITIONAL_INPUT_VBYTES);
 
-        let (utxo, value) = self.select_cardinal_utxo(needed.to_sat(), false)?;
+      let needed = deficit
+        .checked_add(additional_fee)
+        .ok_or(Error::ValueOverflow)?;
 
-        let benefit = value
-          .checked_sub(additional_fee)
-          .ok_or(Error::NotEnoughCardinalUtxos)?;
+      let (utxo, value) = self.select_cardinal_utxo(needed.to_sat(), false)?;
 
-        self.inputs.push(utxo);
+      let benefit = value
+        .checked_sub(additional_fee)
+        .ok_or(Error::NotEnoughCardinalUtxos)?;
 
-        self.outputs.last_mut().unwrap().value += value;
+      self.inputs.push(utxo);
 
-        if benefit > deficit {
-          tprintln!("added {value} sat input to cover {deficit} sat deficit");
-          deficit = Amount::ZERO;
-        } else {
-          tprintln!("added {value} sat input to reduce {deficit} sat deficit by {benefit} sat");
-          deficit -= benefit;
-        }
+      self.outputs.last_mut().unwrap().value += value;
+
+      if benefit > deficit {
+        tprintln!("added {value} sat input to cover {deficit} sat deficit");
+      } else {
+        tprintln!("added {value} sat input to reduce {deficit} sat deficit by {benefit} sat");
       }
     }
 
